@@ -134,7 +134,10 @@ def record_suite(suite, tier, seed, key):
         for c in range(0, nruns, chunk):
             p = os.path.join(cdir, "r%03d.ndjson" % c)
             sd = seed * 7919 + c * 104729 + (hash_name(suite) % 1000)
-            if mode == "faults":
+            if mode == "meta":
+                cmd = ["timeout", "600", drive_bin(profile), "meta", "--elem", elem, "--seed", str(sd), "--cases",
+                       str(min(chunk, nruns - c))] + flags + ["--out", p]
+            elif mode == "faults":
                 cmd = ["timeout", "600", drive_bin(profile), "faults", "--elem", elem, "--seed", str(sd), "--states",
                        str(min(chunk, nruns - c))] + flags + ["--out", p]
             else:
@@ -322,7 +325,7 @@ def run_check(pid, tier, seed, replay):
         if sp == "TraceRef":
             nvalid += 1
             for f in r["fails"]:
-                if pid in f["props"]:
+                if pid in f["props"] or f["monitor"] in plan.get("monitors", []):
                     hit = [k for k in known if known_match(k, pid, f, t["elem"])]
                     if hit:
                         known_hits.append((hit[0], f, t))
